@@ -263,7 +263,12 @@ auto whenAnyTuple(Invoker& invoker, Futures&&... futures) -> Future<size_t> {
       --idx;
       future.wait();
       size_t expected = SIZE_MAX;
-      shared->winner.compare_exchange_strong(expected, idx, std::memory_order_acq_rel);
+      if (shared->winner.compare_exchange_strong(expected, idx, std::memory_order_acq_rel)) {
+        // No .then callback can win any more, so none will invoke the saved-off functor: invoke it
+        // here (it finds the result already running and only drops the reference it holds),
+        // otherwise that reference, and with it the result's shared state, is leaked.
+        shared->f();
+      }
       return false; // one input resolved ⇒ winner is now set; stop iterating.
     });
     return shared->winner.load(std::memory_order_acquire);
@@ -318,7 +323,12 @@ Future<size_t> whenAnyIterators(Invoker& invoker, InputIt first, InputIt last) {
     // non-empty here (the empty range returned above).
     shared->vec[0].wait();
     size_t expected = SIZE_MAX;
-    shared->winner.compare_exchange_strong(expected, size_t{0}, std::memory_order_acq_rel);
+    if (shared->winner.compare_exchange_strong(expected, size_t{0}, std::memory_order_acq_rel)) {
+      // No .then callback can win any more, so none will invoke the saved-off functor: invoke it
+      // here (it finds the result already running and only drops the reference it holds),
+      // otherwise that reference, and with it the result's shared state, is leaked.
+      shared->f();
+    }
     return shared->winner.load(std::memory_order_acquire);
   };
 
